@@ -46,6 +46,7 @@ def _modname(name: str) -> str:
 def check(chk):
     pm = chk.pm
     _alpha(chk)
+    _forward(chk)
     _mro(chk)
     _identity(chk)
     _all_modes(chk)
@@ -118,6 +119,31 @@ def _alpha(chk):
             chk.check(bool(user) and idx == {str(i)}, "SPECIAL.alpha_wire", fr.fn, val,
                       why=f"{attr} must receive alpha[{i}] (got subscripts {sorted(idx)})",
                       facts={"roots": [repr(r) for r in roots][:6]})
+
+
+def _forward(chk):
+    """a named class hands every option it shares with its general class on to the general constructor"""
+    pm = chk.pm
+    for fam in ALPHA:
+        for flav in ("", "Complex", "Hilbert"):
+            cls = _cross_cls(pm, flav + fam)
+            fl = InitFlow(pm, cls)
+            own = fl.frames[0]
+            gen = next((f for f in fl.frames[1:] if f.fn.cls is not None and f.fn.cls.name in GENERAL), None)
+            chk.require(gen is not None, f"{cls.name}: general constructor not reached")
+            shared = [p for p in own.fn.params if p != "self" and p in gen.fn.params]
+            lost = []
+            for p in shared:
+                b = gen.bindings.get(p)
+                if b is None or b[0] != "arg":
+                    lost.append(p)
+                    continue
+                roots = fl.trace(b[2], b[1])
+                if not any(r.kind == "user" and r.name == p for r in roots):
+                    lost.append(p)
+            chk.check(not lost, "SPECIAL.forward", own.fn, gen.call, construct=f"{cls.name} forwards {len(shared)} shared options to {gen.fn.cls.name}",
+                      why=f"{cls.name} accepts {lost} but does not pass {'it' if len(lost) == 1 else 'them'} on to {gen.fn.cls.name}: the option silently "
+                          f"falls back to the default, so {cls.name}(...) no longer equals the general method at its alpha")
 
 
 def _mro(chk):
